@@ -360,6 +360,9 @@ class Renderer:
                     return True
             if n['k'] == 'CXXNewExpr':
                 return True
+            if n['k'] == 'CallExpr' and 'callee' in n and any(('basic_fstream' in pt or 'basic_ostream' in pt or 'basic_iostream' in pt or 'std::fstream' in pt or 'std::ostream' in pt)
+                                                              and pt.endswith('&') and not pt.startswith('const ') for pt in n['callee'].get('ptypes', [])):
+                return True     # a helper that is handed the output stream: it writes / moves the stream
         return False
 
     def render(self, i, depth=0):
